@@ -83,6 +83,10 @@ def float_text(canonical=True):
                           st.sampled_from(["", "", "-"]),
                           st.one_of(st.just("0"), st.integers(1, 6).flatmap(digits)),
                           st.text(alphabet=string.digits, min_size=15, max_size=28))
+    # no digit before, or none after, the decimal point ('.5', '-.25', '7.')
+    bare = st.one_of(st.builds(lambda s, b: s + "." + b, st.sampled_from(["", "", "-"]), st.text(alphabet=string.digits, min_size=1, max_size=6)),
+                     st.builds(lambda s, a: s + a + ".", st.sampled_from(["", "-"]), st.integers(1, 6).flatmap(digits)))
+    mant = st.one_of(mant, mant, mant, bare)
     sci = st.builds(lambda m, s, e: m + "e" + s + str(e), st.one_of(mant, plain_int, mant, long_mant),
                     st.sampled_from(["", "-", "+"]), st.integers(0, 30))
     return st.one_of(mant, plain_int, sci, mant, long_mant)
